@@ -88,7 +88,7 @@ def get_members_value(context):
         if keyword.arg == "members":
             arg = keyword.value
             if isinstance(arg, ast.Call):
-                return {"Function": arg.func.id}
+                return {"Function": getattr(arg.func, "id", arg.func)}
             else:
                 value = arg.id if isinstance(arg, ast.Name) else arg
                 return {"Other": value}
